@@ -59,6 +59,10 @@ CLAIMED = {
           "Stream 1 runs every harvested program that compiles in six packaging variants behind 0-3 other programs; stream 2 generates programs evaluating to a nilary closure over bindings (bignums, constant/heap binaries, tuples, closures capturing closures) and pushes them through the CLI's extract-entry path, tree-shaking, JSON and a merge, against the closure applied in source; stream 3 generates modules (optionally importing a module) and imports them in five forms against the body spliced in place. All results must be structurally equal. Exploration only.",
           "The `quiv compile`/`quiv run` subprocess path is replicated in-process, not executed. Function values compare as opaque (they are also called). Timing- and I/O-dependent harvested programs are discarded. A supervising process turns a death of the check process (stack overflow/abort in the checked code) into a reported case.",
           "DESIGN.md §4 C10"),
+  "C13": ("proptest-generated values x construction paths x comparison forms x packaging variants; oracle: structural equality of host models; refs: identity model over simulated workers",
+          "Stream 1 builds a value a, a value b equal to a or changed in exactly one place, and a again along generated construction paths (literal, arithmetic, concatenation/slice/tiling/bit operations so binaries are ropes, views or tiled binaries, fields through variables, spread override, generic and dispatch functions, module import, closures, a round trip through a process) and compares them in eleven forms (pins both ways, repeated binders, literal patterns, nested) in every packaging variant; stream 2 compares closures by definition and captures; stream 3 mints refs in 2-5 processes on 1-4 simulated workers and compares all pairs. Exploration only.",
+          "Values are widened at a union type so the comparison is executed at run time. Nil leaves are excluded from stream 1 (a variable bound to nil is narrowed to non-nil by the compiler — a separate recorded defect); nil equality has a directed probe. Each comparison form runs in its own closure because a match used as a value narrows its operands for the rest of the scope (also recorded).",
+          "DESIGN.md §4 C13"),
   # id: (technique, level text, level note, design_ref)
   "C18": ("proptest-generated inputs + corpus mutation (prefix/token delete/dup/subst/transpose/wide-char) + bracket nests to depth 100; oracle: no panic, located error, deterministic production budget",
           "Generated-input search over front-end inputs: every run parses ~10^5 generated/mutated texts and compiles the accepted ones, checking no panic, error position inside the input on a char boundary with consistent line/column, and a polynomial production budget via hook H5. Exploration only: absence is not established.",
